@@ -25,6 +25,11 @@ type boundsRun struct {
 	lcMemo  map[*ssa.Function]*lenContract
 	lcBusy  map[*ssa.Function]bool
 	nnMemo  map[nnKey]int // 0 unknown, 1 result shown >= 0, 2 not shown, 3 in progress
+	nnrMemo map[nnrKey]int
+	capMemo map[*ssa.FreeVar]int
+	fieldMemo map[string]int
+	liftDepth int
+	nilMode bool // rule nilderef: assumption A5 becomes an entry fact
 	w       *World
 	mem     *memInfo
 	provers map[*ssa.Function]*bprover
@@ -45,6 +50,9 @@ func (br *boundsRun) prover(fn *ssa.Function) *bprover {
 	p.entryFacts = append(p.entryFacts, br.callbackFacts(p)...)
 	p.entryFacts = append(p.entryFacts, p.contractEntryFacts()...)
 	p.entryFacts = append(p.entryFacts, p.parserEntryFacts()...)
+	if br.nilMode {
+		p.entryFacts = append(p.entryFacts, p.nilEntryFacts()...)
+	}
 	return p
 }
 
@@ -278,7 +286,7 @@ func (br *boundsRun) siteText(s boundSite) string {
 					for _, n := range path {
 						switch x := n.(type) {
 						case *ast.IndexExpr:
-							if s.kind == "index" {
+							if s.kind == "index" || s.kind == "nilderef" {
 								return types.ExprString(x)
 							}
 						case *ast.SliceExpr:
@@ -291,6 +299,17 @@ func (br *boundsRun) siteText(s boundSite) string {
 							}
 						case *ast.CallExpr:
 							if s.kind == "makeslice" {
+								return types.ExprString(x)
+							}
+							if s.kind == "nilderef" {
+								return types.ExprString(x.Fun) + "(…)"
+							}
+						case *ast.SelectorExpr:
+							if s.kind == "nilderef" {
+								return types.ExprString(x)
+							}
+						case *ast.StarExpr:
+							if s.kind == "nilderef" {
 								return types.ExprString(x)
 							}
 						case *ast.RangeStmt:
@@ -443,9 +462,12 @@ func (br *boundsRun) provenAtCallers(fn *ssa.Function, g blin) bool {
 				return false
 			}
 			var by blin
-			if a.k == aLen {
+			switch a.k {
+			case aLen:
 				by = pc.lenOf(args[idx])
-			} else {
+			case aNonNil:
+				by = pc.nonNilOf(args[idx])
+			default:
 				by = pc.linOf(args[idx])
 			}
 			sc, ok := by.scale(c)
@@ -458,6 +480,18 @@ func (br *boundsRun) provenAtCallers(fn *ssa.Function, g blin) bool {
 			}
 		}
 		if !pc.proveAt(e.Site.Block(), lifted) {
+			// the caller only passes its own parameter on: ask its callers
+			if br.liftDepth < 4 && caller != fn && br.liftable(caller) && br.paramOnly(caller, lifted) {
+				br.liftDepth++
+				ok := br.provenAtCallers(caller, lifted)
+				br.liftDepth--
+				if ok {
+					pc.entryFacts = append(pc.entryFacts, bfact{e: lifted, why: "precondition established at every call site"})
+					pc.gcache = map[*ssa.BasicBlock][]bfact{}
+					pc.afMemo = map[atom][]bfact{}
+					continue
+				}
+			}
 			return false
 		}
 	}
